@@ -354,7 +354,7 @@ func (c *FnCtx) callContract(st *State, in ssa.Instruction, cc *ssa.CallCommon, 
 	}
 	env.st = st
 	for _, cl := range fc.Clauses {
-		if cl.Kind == "ensures" {
+		if cl.Kind == "ensures" && cl.At == "" { // (postconditions anchored at one return speak about the callee's locals)
 			c.assume(st, env.evalBool(cl.E))
 		}
 	}
